@@ -243,3 +243,18 @@ pub use d_engine_core::storage_engine_test;
 #[cfg(test)]
 #[doc(hidden)]
 pub(crate) mod test_utils;
+
+/// Verification re-exports. Compiled only with `--cfg deventlab_d_engine_verif`.
+#[cfg(deventlab_d_engine_verif)]
+#[doc(hidden)]
+pub mod verif_exports {
+    pub use crate::membership::RaftMembership;
+    use d_engine_core::TypeConfig;
+    pub fn new_membership<T: TypeConfig>(
+        node_id: u32,
+        initial_nodes: Vec<d_engine_proto::server::cluster::NodeMeta>,
+        config: d_engine_core::RaftNodeConfig,
+    ) -> RaftMembership<T> {
+        RaftMembership::new(node_id, initial_nodes, config).0
+    }
+}
